@@ -216,6 +216,24 @@ Proof.
 Qed.
 Print Assumptions C06_model_meets_full_handle_oracle.
 
+(* the transmit time handed back by a report, for every store and every input (no invariant, no era
+   hypothesis - in particular across the 2036 rollover of the 32-bit seconds): a reported time later
+   than the receive time is kept as it is, otherwise it becomes receive time + 1 ns; the comparison is
+   between the times, not between their 64-bit stamps (oracle clause C06_update_given_ok) *)
+Theorem C06_report_time : forall s cid rxt txt,
+  t_txt (update_tx s cid rxt txt) = (if rxt <? txt then txt else rxt + 1) /\
+  C06_update_given_ok rxt txt (t_txt (update_tx s cid rxt txt)) = true.
+Proof.
+  intros s cid rxt txt.
+  assert (H : t_txt (update_tx s cid rxt txt) = if rxt <? txt then txt else rxt + 1).
+  { unfold update_tx. destruct (find_item cid (items s)) as [it|]; [|reflexivity].
+    destruct (scan_tx_from 0 (it_ents it) (to64 rxt) None None None) as [[[[x xtx]|] m0] m1]; [|reflexivity].
+    destruct (negb (xtx =? to64 (if rxt <? txt then txt else rxt + 1))); [reflexivity|].
+    destruct (Nat.eqb (length (it_ents it)) 1); reflexivity. }
+  split; [exact H|]. unfold C06_update_given_ok. rewrite H. destruct (rxt <? txt); apply Z.eqb_refl.
+Qed.
+Print Assumptions C06_report_time.
+
 (* ---- at the listeners ----
    What a client sees on the wire (Model/TssListenerOracle.v): the listener-level
    history of a run is the list, oldest first, of (client, request, reply origin /
